@@ -59,7 +59,7 @@ func c04r1(w *World, rr *RuleRun) {
 	sites := w.doQuerySites(t)
 	rr.Oblige("traversal", "DoQuery is invoked at exactly one site", "-", len(sites) == 1, fmt.Sprintf("%d sites", len(sites)))
 	for _, site := range sites {
-		g := site.Parent()
+		g := w.liftSyncHelper(site.Parent())
 		// g must be started with `go` (and only so)
 		var starts []*Edge
 		okGo := true
@@ -512,4 +512,25 @@ func termInt(t *Term) (int64, bool) {
 		return 0, false
 	}
 	return n, true
+}
+
+// liftSyncHelper: while f is an unexported named function with exactly one call site, a plain
+// synchronous call, continue with the caller: an extracted helper runs in its caller's goroutine.
+func (w *World) liftSyncHelper(f *ssa.Function) *ssa.Function {
+	for depth := 0; depth < 3; depth++ {
+		if f.Parent() != nil || f.Object() == nil || f.Object().Exported() {
+			return f
+		}
+		var es []*Edge
+		for _, e := range w.CG.CallersOf(f) {
+			if !e.Callback {
+				es = append(es, e)
+			}
+		}
+		if len(es) != 1 || es[0].Mode != ModeSync {
+			return f
+		}
+		f = es[0].Caller
+	}
+	return f
 }
